@@ -114,6 +114,18 @@ def spec_on_impl(o):
                 return ("busy-loop", "after the pass number %d failed to start the delegate is called again only %.3f ms "
                                      "later (interval %.3f ms): a busy loop" % (
                                          first_fail, (starts[k + 1] - starts[k]) / 1e6, o["rescan_us"] / 1000.0))
+    # cancellation between two passes: no pass may be started (long) after the cancellation. A call right after it can
+    # be the legitimate race of the expiring timer with ctx.Done; one that comes more than 600 ms later cannot.
+    if o["kind"] == "trace":
+        tk = None
+        for e in o["trace"]:
+            if e[0] == "K" and len(e) > 1:
+                tk = e[1]
+            elif e[0] == "G" and tk is not None and e[2] - tk > 600e6:
+                return ("pass-after-cancel", "delegate call %d (a new pass) is made %.0f ms after the cancellation, which came "
+                                             "while the generator paused between two passes (interval %.0f ms): cancellation "
+                                             "between passes does not end the stream" % (e[1], (e[2] - tk) / 1e6,
+                                                                                         o["rescan_us"] / 1000.0))
     gen = [r for p in script[:calls] if not p["fail"] for r in p["reqs"]]
     allr = [r for p in script if not p["fail"] for r in p["reqs"]]
     outs = o["outs"]
@@ -143,7 +155,8 @@ def spec_on_impl(o):
                 k + 1, (starts[k + 1] - closes[k]) / 1e6, k, o["rescan_us"] / 1000.0))
     # passes keep coming: a run that was only cancelled once the script was used up (or a pass failed) must have
     # generated every pass before that and delivered all of them
-    if o["cancel_after"] >= (1 << 29) and not (first_fail is not None and calls > first_fail + 1):
+    if o["cancel_after"] >= (1 << 29) and not o.get("cancel_pause_ms") and \
+            not (first_fail is not None and calls > first_fail + 1):
         want_calls = first_fail + 1 if first_fail is not None else len(script)
         if calls < want_calls:
             return ("stops", "passes stop coming: %d delegate calls, %d expected before the cancellation" % (calls, want_calls))
@@ -200,7 +213,9 @@ def e2e_spec(o):
             return ("e2e-foreign", "pass %d probes %s which is excluded or outside %s" % (k, bad, o["subnet"]))
         if len(set(tg)) != len(tg) or (full and sorted(tg) != sorted(want)):
             return ("e2e-pass", "pass %d on the wire is not every address exactly once: %s" % (k, tg))
-    tol = max(40.0, o["interval_ms"] / 4.0)
+    # receive times are the kernel's; what remains is the lag of sx's own pipeline, which grows when the machine is
+    # starved: the scheduling jitter the harness measured during the run is added to the tolerance
+    tol = max(40.0, o["interval_ms"] / 4.0) + o.get("jitter_ms", 0.0)
     for k in range(len(passes) - 1):
         gap = (passes[k + 1][0]["t"] - passes[k][-1]["t"]) / 1e6
         if gap < o["interval_ms"] - tol:
@@ -259,10 +274,86 @@ def report(ctx, o, key, why):
     path = ctx.write_replay(tag, {
         "property": "C19", "what": why,
         "input": {"class": o["class"], "script": o["script"], "cap": o["cap"], "rescan_us": o["rescan_us"],
-                  "cancel_after": o["cancel_after"], "consume_us": o.get("consume_us", 0)},
+                  "cancel_after": o["cancel_after"], "consume_us": o.get("consume_us", 0),
+                  "cancel_pause_ms": o.get("cancel_pause_ms", 0)},
         "observed": {k: o[k] for k in ("trace", "outs", "calls", "before", "closed", "starts", "closes", "stuck", "start_err")},
         "replay_cmd": "bin/check C19 --replay <this file>"})
     ctx.findings.append({"key": key, "what": why, "replay": path})
+
+
+def confirm_e2e(ctx, o, r, sx, big):
+    """A finding of an end-to-end run may be the machine, not the code (a starved sx lags behind its own timers, a
+    starved capture loses frames): the same configuration is run again, after a pause, up to two more times, and the
+    finding is reported only if every run fails. Returns the last failing (row, finding) or None."""
+    import time
+    last = (o, r)
+    for attempt in range(2):
+        time.sleep(1.5 if o.get("jitter_ms", 0) < 20 else 4.0)
+        args = ["-out", "confirm.jsonl", "-ntrace", 0, "-nseq", 0, "-every", 0, "-nslow", 0, "-e2e", o["idx"] + 1,
+                "-e2eidx", o["idx"], "-sx", sx] + (["-e2ebig"] if big else [])
+        ok, _ = ctx.harness_run("c19", args, timeout=300)
+        if not ok:
+            ctx.broken.pop()
+            continue
+        again = [x for x in ctx.read_jsonl(os.path.join(ctx.work, "confirm.jsonl")) if x["kind"] == "e2e"]
+        if not again or again[0].get("skipped"):
+            continue
+        r2 = e2e_spec(again[0])
+        if not r2:
+            ctx.info.append("e2e run %s --live %dms: '%s' was not reproduced when the run was repeated (scheduling jitter "
+                            "during the failing run: %.0f ms): attributed to the load of the machine, not reported" % (
+                                o["subnet"], o["interval_ms"], r[1][:160], o.get("jitter_ms", 0)))
+            return None
+        last = (again[0], r2)
+    return last
+
+
+def judge_e2e(ctx, e2e, sx, big):
+    for o in e2e:
+        if o.get("skipped"):
+            ctx.skipped.append("e2e: " + o["skipped"])
+            continue
+        nreq = len([a for a in o["seen"] if a["op"] == 1 and a["sender"] == o["src_ip"]])
+        ctx.count("e2e-arp-live", (o["subnet"], o["interval_ms"], tuple(o["exclude"])), nontrivial=nreq > 8,
+                  sample={"cmd": "sx arp --live %dms --json %s%s%s" % (o["interval_ms"], "--exclude <%s> " % ",".join(
+                      o["exclude"]) if o["exclude"] else "", "--rate %d/s " % o["rate"] if o.get("rate") else "", o["subnet"]),
+                      "arp_requests_seen": [((a["t"] - o["start"]) // 1000000, a["target"]) for a in o["seen"]
+                                            if a["op"] == 1 and a["sender"] == o["src_ip"]][:30],
+                      "stdout": o["stdout"][:4], "jitter_ms": o.get("jitter_ms")})
+        r = e2e_spec(o)
+        if r and r[0] not in [f["key"] for f in ctx.findings]:
+            c = confirm_e2e(ctx, o, r, sx, big)
+            if c is None:
+                continue
+            o, r = c
+            why = r[1] + " (the run was repeated: it failed 3 times out of 3)"
+            path = ctx.write_replay("e2e-%d" % len(ctx.findings), {
+                "property": "C19", "what": why, "input": {"e2e": True, "subnet": o["subnet"], "exclude": o["exclude"],
+                                                        "interval_ms": o["interval_ms"], "run_ms": o["run_ms"],
+                                                        "rate": o.get("rate", 0)},
+                "observed": {"seen": o["seen"][:80], "stdout": o["stdout"], "exit_code": o["exit_code"],
+                             "stderr": o["stderr"], "jitter_ms": o.get("jitter_ms")},
+                "replay_cmd": "bin/check C19 --replay <this file>"})
+            ctx.findings.append({"key": r[0], "what": why, "replay": path})
+
+
+def confirm_case(ctx, o):
+    """A watchdog finding (hang) of a scripted run is re-run once before it is reported."""
+    p = os.path.join(ctx.work, "confirm-in.json")
+    with open(p, "w") as f:
+        json.dump({k: o[k] for k in ("class", "script", "cap", "rescan_us", "cancel_after") if k in o} |
+                  {k: o[k] for k in ("consume_us", "real", "passes", "cancel_pause_ms") if o.get(k)}, f)
+    ok, _ = ctx.harness_run("c19", ["-out", "confirm-case.jsonl", "-replay", p], timeout=120)
+    if not ok:
+        ctx.broken.pop()
+        return True
+    got = ctx.read_jsonl(os.path.join(ctx.work, "confirm-case.jsonl"))
+    if not got:
+        return True
+    r = real_spec(got[0]) if got[0]["kind"] == "real" else spec_on_impl(got[0])
+    if not r:
+        ctx.info.append("a run that hit the watchdog ended normally when repeated: attributed to the load of the machine")
+    return bool(r)
 
 
 def judge(ctx, rows, limit=3):
@@ -271,6 +362,8 @@ def judge(ctx, rows, limit=3):
     for _, i in bad:
         key, why = spec_on_impl(rows[i])
         if key in seen or len(seen) >= limit:
+            continue
+        if key == "hang" and not confirm_case(ctx, rows[i]):
             continue
         seen.add(key)
         report(ctx, rows[i], key, why)
@@ -308,30 +401,14 @@ def run(ctx):
             rows = [o for o in allrows if o["kind"] in ("trace", "seq")]
             e2e = [o for o in allrows if o["kind"] == "e2e"]
             reals = [o for o in allrows if o["kind"] == "real"]
-    for o in e2e:
-        if o.get("skipped"):
-            ctx.skipped.append("e2e: " + o["skipped"])
-            continue
-        nreq = len([a for a in o["seen"] if a["op"] == 1 and a["sender"] == o["src_ip"]])
-        ctx.count("e2e-arp-live", (o["subnet"], o["interval_ms"], tuple(o["exclude"])), nontrivial=nreq > 8,
-                  sample={"cmd": "sx arp --live %dms --json %s%s" % (o["interval_ms"], "--exclude <%s> " % ",".join(
-                      o["exclude"]) if o["exclude"] else "", o["subnet"]),
-                      "arp_requests_seen": [((a["t"] - o["start"]) // 1000000, a["target"]) for a in o["seen"]
-                                            if a["op"] == 1 and a["sender"] == o["src_ip"]][:30],
-                      "stdout": o["stdout"][:4]})
-        r = e2e_spec(o)
-        if r:
-            path = ctx.write_replay("e2e-%d" % len(ctx.findings), {
-                "property": "C19", "what": r[1], "input": {"e2e": True, "subnet": o["subnet"], "exclude": o["exclude"],
-                                                         "interval_ms": o["interval_ms"], "run_ms": o["run_ms"]},
-                "observed": {"seen": o["seen"][:80], "stdout": o["stdout"], "exit_code": o["exit_code"], "stderr": o["stderr"]},
-                "replay_cmd": "bin/check C19 --replay <this file>"})
-            ctx.findings.append({"key": r[0], "what": r[1], "replay": path})
+    judge_e2e(ctx, e2e, os.path.join(ctx.work, "sx"), big=False)
     for o in reals:
         ctx.count(o["class"], (o["real"], o["rescan_us"], o["consume_us"]), nontrivial=True,
                   sample={"real_generators_over": o["real"], "rescan_us": o["rescan_us"], "consume_us": o["consume_us"],
                           "delegate_calls": o["calls"], "requests": len(o["out_ips"]), "first": o["out_ips"][:6]})
         r = real_spec(o)
+        if r and r[0] == "hang" and not confirm_case(ctx, o):
+            r = None
         if r and r[0] not in [f["key"] for f in ctx.findings]:
             path = ctx.write_replay("real-%d" % len(ctx.findings), {
                 "property": "C19", "what": r[1],
@@ -391,12 +468,11 @@ def run(ctx):
         if ok:
             more = ctx.read_jsonl(os.path.join(ctx.work, "search.jsonl"))
             judge(ctx, [o for o in more if o["kind"] in ("trace", "seq")])
+            judge_e2e(ctx, [o for o in more if o["kind"] == "e2e"], sx, big=True)
             for o in more:
                 r = None
                 if o["kind"] == "real":
                     r = real_spec(o)
-                elif o["kind"] == "e2e" and not o.get("skipped"):
-                    r = e2e_spec(o)
                 if r and r[0] not in [f["key"] for f in ctx.findings]:
                     path = ctx.write_replay("search-%d" % len(ctx.findings), {
                         "property": "C19", "what": r[1], "input": {"e2e": o["kind"] == "e2e", "class": o["class"]},
